@@ -71,7 +71,7 @@ if LOGDIR and not getattr(_dq, "_verif_hooked", False):
         seed = int(rng) if isinstance(rng, (int, np.integer)) else -1
         T.log_event(LOGDIR, {"run": run, "e": "s", "i": i, "t": time.monotonic_ns(), "seed": seed})
         res = _orig(circuit, kwargs)
-        ok = T.turnstile(LOGDIR, run, pred)
+        ok = T.turnstile(LOGDIR, run, i, pred, cur["w"])
         T.finish(LOGDIR, run, i, digest(res), ok)
         return res
 
@@ -119,7 +119,7 @@ def session(s, out):
                 raise RuntimeError("preprocessing changed the batch size / circuits not distinguishable")
             tmp = os.path.join(LOGDIR, "current.tmp")
             with open(tmp, "w") as f:
-                json.dump({"run": run, "tasks": {tape_key(t): [i, pred[i]] for i, t in enumerate(tapes2, start=1)}}, f)
+                json.dump({"run": run, "w": min(s["workers"] or 1, n), "tasks": {tape_key(t): [i, pred[i]] for i, t in enumerate(tapes2, start=1)}}, f)
             os.replace(tmp, os.path.join(LOGDIR, "current.json"))
             t0 = time.time()
             res = post(dev.execute(tapes2, cfg))
